@@ -8,7 +8,7 @@ import argparse, os, shutil, subprocess, sys, tempfile
 ap = argparse.ArgumentParser()
 ap.add_argument("--file"); ap.add_argument("--old"); ap.add_argument("--new")
 ap.add_argument("--count", type=int, default=1)
-ap.add_argument("--patch")
+ap.add_argument("--patch", action="append", help="patch file(s) applied to the scratch copy (may be repeated)")
 ap.add_argument("--revert", help="commit in /repo whose change is reverted in the scratch copy")
 ap.add_argument("--tier", default="quick")
 ap.add_argument("--tests", action="store_true", help="also run the repo's baseline tests on the mutated copy")
@@ -21,9 +21,10 @@ try:
     if a.revert:
         diff = subprocess.run(["git", "-C", "/repo", "diff", a.revert, a.revert + "^"], check=True, stdout=subprocess.PIPE).stdout
         subprocess.run(["patch", "-p1", "-s", "-d", d], input=diff, check=True)
-    elif a.patch:
-        subprocess.run(["patch", "-p1", "-s", "-d", d, "-i", os.path.abspath(a.patch)], check=True)
-    else:
+    if a.patch:
+        for pf in a.patch:
+            subprocess.run(["patch", "-p1", "-s", "-d", d, "-i", os.path.abspath(pf)], check=True)
+    if a.file:
         p = os.path.join(d, a.file)
         s = open(p).read()
         if s.count(a.old) < 1:
@@ -41,6 +42,6 @@ try:
     if a.tests:
         r = subprocess.run(["/verif/tools/baseline.py"], env=dict(os.environ, REPO_DIR=d), stdout=subprocess.PIPE, stderr=subprocess.STDOUT, text=True)
         print(r.stdout.strip().splitlines()[0] if r.stdout.strip() else "", "tests rc", r.returncode)
-    print("PROBE", {k: ("CAUGHT" if v == 1 else ("inconclusive" if v == 3 else "MISSED")) for k, v in rc_all.items()})
+    print("PROBE", {k: ("CAUGHT" if v == 1 else ("inconclusive" if v == 3 else "MISSED(silent)")) for k, v in rc_all.items()})
 finally:
     shutil.rmtree(d, ignore_errors=True)
